@@ -29,6 +29,10 @@ var c17Files = map[string]string{
 	"src/use.lua":   "crossfn(1, 2)\nprint(crossvar, nowhere)\n",
 	"src/ann.lua":   "---@class Animal\n---@field name string\nlocal Animal = {}\n---@type Animal\nlocal pet = nil\nprint(pet.name, pet.age)\n---@type NoSuchType\nlocal z = nil\nprint(z)\n---@param n number\n---@return string\nlocal function f(n) return n end\nprint(f(\"x\"))\n",
 	"ok.lua":        "local fine = 1\nprint(fine)\n",
+	// directories whose names contain regular-expression operators: a rule naming them as a plain
+	// path fragment is also a valid pattern that does not match its own text
+	"third(party)/a.lua": "local unused_tp = 1\nprint(undefined_tp)\n",
+	"lua+ext/b.lua":      "local unused_le = 1\nprint(undefined_le)\n",
 	// type 17 (and 4): a local that is only ever assigned
 	"src/t17.lua": "local nu = 1\nnu = 2\nnu = 3\n",
 	// type 11: a member the imported module does not have
@@ -137,7 +141,7 @@ func (c C17Config) jsonFile() string {
 	return string(b)
 }
 
-var c17Patterns = []string{"lib/", "src/", "src/syn.lua", "lib/misc.lua", "src/un.*lua", "lib/i.*\\.lua", "ok.lua", "src/a", "ext/"}
+var c17Patterns = []string{"lib/", "src/", "src/syn.lua", "lib/misc.lua", "src/un.*lua", "lib/i.*\\.lua", "ok.lua", "src/a", "ext/", "third(party)/", "lua+ext/b.lua", "third(party)/a.lua", "lua+ext/"}
 
 // importTargetIgnored: an error-ignore rule of the configuration matches the module that
 // src/t11.lua imports.  The server then also drops the importer's type-11 diagnostics about that
